@@ -58,7 +58,7 @@ func (rule *RuleEvents) checkCron(spec *String) {
 	p := cron.NewParser(cron.Minute | cron.Hour | cron.Dom | cron.Month | cron.Dow)
 	sched, err := p.Parse(spec.Value)
 	if err != nil {
-		rule.Errorf(spec.Pos, "invalid CRON format %q in schedule event: %s", spec.Value, err.Error())
+		rule.Errorf(spec.Pos, "invalid CRON format %q in schedule event: %s", spec.Value, singleLine(err.Error()))
 		return
 	}
 
